@@ -23,7 +23,7 @@ def sideRun (C : Crypto) (cfg : Cfg) (code : String) (peer : Cfg) (peerCode : St
 /-- the hand-written call shapes of all modelled output bodies equal the skeletons extracted from
     the working tree (order of `B.got_key / M.add_message / R.got_key`, of `SK.got_code / SK.got_pake`,
     of `B.got_code / K.got_code`, …) -/
-theorem skeleton_agrees : shapeAgrees = true := by decide
+theorem skeleton_agrees : shapeAgrees = true := by decide +kernel
 
 /-- Both arrival orders feed exactly `(to_bytes(code), to_bytes(appid))` and the peer's element to
     SPAKE2, and end in the same state (same key in Wormhole, Receive; same events in the same
